@@ -135,7 +135,13 @@ def scenarios(tier, seed):
     # water-table observations listed in another order than by date (Constant and Variable), a repeated reading
     unsorted = [S("Barley", "Loam", seed=50, gw={"water_table": "Y", "method": meth, "dates": ["2001/07/01", "2001/04/20", "2001/09/01", "2001/05/25"], "values": [1.1, 2.0, 1.6, 1.4]})
                 for meth in ("Constant", "Variable")]
-    scs += sp + [b, c, d, e, f, g, h, i] + ends + leap + unsorted
+    # crops that emerge into a root zone without extractable water (start at wilting point, dry autumn of the repository's Mediterranean series):
+    # the canopy is set back to zero day after day until the seedling protection ends
+    dryem = []
+    for y in ((1980, 1990) if tier != "thorough" else (1979, 1980, 1983, 1985, 1988, 1990, 1993, 1996)):
+        for soil in (("Clay",) if tier != "thorough" else ("Clay", "SiltClay", "SandyLoam")):
+            dryem.append(L.builtin_scenario("Wheat", y, plant="10/01", end=f"{y + 2}/09/30", soil=soil, iwc={"value": ["WP"]}))
+    scs += sp + [b, c, d, e, f, g, h, i] + ends + leap + unsorted + dryem
     # the pairwise covering array over the configuration dimensions (every pair of option levels occurs in some run)
     scs += L.pairwise_cases(seed)
     return scs
